@@ -98,6 +98,8 @@ JOBS += [
 
 # ---- status after validation (ok on /repo AND a deliberate breakage of the function detected) -----
 VALIDATED = set("""
+c15_dispatch_isa_subset c15_scalar_prefix_sum_i32 c15_scalar_prefix_sum_i64 c15_scalar_unpack_bools c15_scalar_build_null_bitmap
+c15_sse_crc32c_check_value c15_sse_unpack_bools
 c15_scalar_gather_i32 c15_scalar_gather_i64 c15_scalar_gather_float
 c15_scalar_gather_double c15_scalar_byte_split_encode_float c15_scalar_byte_split_decode_float
 c15_scalar_byte_split_encode_double c15_scalar_byte_split_decode_double
